@@ -91,6 +91,12 @@ def check(tier, seed):
     raw = build_cases(tier, rng)
     refs = fam.ref_map([j for _, _, j, _ in raw])
     cases = []
+    # the challenge the verifier derives from a commitment hash: hashes whose SampleInBall consumes unusually many candidate bytes (corpus)
+    for s in fam.SETS:
+        p = R.PARAMS[s]
+        for e in fam.rare_inputs().get('sib_long', {}).get('cases', {}).get(s, []):
+            ct = bytes.fromhex(e['c_tilde'])
+            cases.append({'line': f"sample_in_ball 0 {p['tau']} {ct.hex()}", 'tag': 'sample_in_ball on a long rejection run [hook]', 'want': ",".join(str(x) for x in R.sample_in_ball(p, ct)), 'model': True})
     for i, ((line, tag, job, expect), r) in enumerate(zip(raw, refs)):
         if expect is not None and bool(r) != bool(expect):
             rep.notes.append(f'generator self-check failed for {tag}: reference says {r}, construction says {expect}')
